@@ -1022,9 +1022,20 @@ class Walker:
                 (lambda s, c=c: s.facts.assume(c, True), yes),
                 (lambda s, c=c: s.facts.assume(c, False), agg(OPT, "None", [])),
             ])
+        if cn in ("std::mem::replace", "core::mem::replace") and len(args) == 2 and isinstance(args[0], tuple) and args[0][0] == "ref":
+            # mem::replace(&mut place, v): stores v, returns what was there
+            old = self._read(st, args[0][1])
+            self._write(st, args[0][1], args[1])
+            return ("val", old)
         if name == "saturating_sub" and len(args) == 2:
+            if is_int(args[0]) and is_int(args[1]):
+                return ("val", Int(max(0, args[0][1] - args[1][1])))
+            if args[0] == args[1]:
+                return ("val", Int(0))
             return ("val", ("satsub", args[0], args[1]))
         if name == "saturating_add" and len(args) == 2:
+            if is_int(args[0]) and is_int(args[1]) and args[0][1] + args[1][1] < 2 ** 63:
+                return ("val", Int(args[0][1] + args[1][1]))
             return ("val", ("satadd", args[0], args[1]))
         if name in ("eq", "ne") and tr == "std::cmp::PartialEq" and len(args) == 2:
             a = self._deref_val(st, args[0])
